@@ -735,3 +735,197 @@ func TestAbsolute(t *testing.T) {
 	defer func() { _ = flag.Set("rapid.shrinktime", "30s") }()
 	propAbs.Run(t)
 }
+
+// ---- the store API on a session whose absolute deadline passed, and two sessions held at the same time ------------
+
+// ByIDCase: a client creates a session; Wait grid units later a background job looks it up with Store.GetByID (the
+// storage record is still there: only the absolute timeout can have ended the session), optionally while the storage
+// refuses the Delete; directly afterwards two other clients are served at the same time (the second one's request runs
+// while the first one's handler holds its session), each writing its own data.
+type ByIDCase struct {
+	API   string // middleware | store
+	Wait  int    // grid units between creation and the lookup
+	Fault bool   // the storage fails the first Delete of the lookup
+	Twice bool   // the lookup is done twice
+}
+
+func checkByID(c ByIDCase) vk.Verdict {
+	ctr := 0
+	issued := map[string]bool{}
+	clockMu.Lock()
+	defer clockMu.Unlock()
+	vk.SetNow(4_000_000)
+	st := vk.NewStorage()
+	cfg := session.Config{IdleTimeout: 500 * time.Millisecond, AbsoluteTimeout: absTimeout, Storage: st, KeyGenerator: func() string {
+		ctr++
+		id := fmt.Sprintf("byid-%d", ctr)
+		issued[id] = true
+		return id
+	}}
+	app := fiber.New()
+	var store *session.Store
+	var herr string
+	// with(ctx, f): run f on the request's session and persist it
+	var with func(ctx fiber.Ctx, f func(*session.Session))
+	if c.API == "middleware" {
+		var h fiber.Handler
+		h, store = session.NewWithStore(cfg)
+		app.Use(h)
+		with = func(ctx fiber.Ctx, f func(*session.Session)) { f(session.FromContext(ctx).Session) }
+	} else {
+		store = session.NewStore(cfg)
+		with = func(ctx fiber.Ctx, f func(*session.Session)) {
+			sess, err := store.Get(ctx)
+			if err != nil {
+				herr = err.Error()
+				return
+			}
+			f(sess)
+			if err := sess.Save(); err != nil {
+				herr = err.Error()
+			}
+			sess.Release()
+		}
+	}
+	seen := map[string][2]string{} // route -> id, value of "a" the handler found
+	app.Get("/set/:v", func(ctx fiber.Ctx) error {
+		with(ctx, func(s *session.Session) {
+			a, _ := s.Get("a").(string)
+			seen["set"] = [2]string{s.ID(), a}
+			s.Set("a", ctx.Params("v"))
+		})
+		return nil
+	})
+	app.Get("/read", func(ctx fiber.Ctx) error {
+		with(ctx, func(s *session.Session) {
+			a, _ := s.Get("a").(string)
+			seen["read"] = [2]string{s.ID(), a}
+		})
+		return nil
+	})
+	var innerCookie string
+	app.Get("/outer", func(ctx fiber.Ctx) error {
+		with(ctx, func(s *session.Session) {
+			idBefore := s.ID()
+			// another client is served while this handler holds its session
+			r := vk.Do(app, "GET", "/inner")
+			ck := fasthttp.AcquireCookie()
+			ck.SetKey("session_id")
+			if r.Response.Header.Cookie(ck) {
+				innerCookie = string(ck.Value())
+			}
+			fasthttp.ReleaseCookie(ck)
+			a, _ := s.Get("a").(string)
+			seen["outer"] = [2]string{idBefore, a}
+			if s.ID() != idBefore {
+				seen["outer"] = [2]string{idBefore + " then " + s.ID(), a}
+			}
+			s.Set("a", "outer-data")
+		})
+		return nil
+	})
+	app.Get("/inner", func(ctx fiber.Ctx) error {
+		with(ctx, func(s *session.Session) {
+			a, _ := s.Get("a").(string)
+			seen["inner"] = [2]string{s.ID(), a}
+			s.Set("a", "inner-data")
+		})
+		return nil
+	})
+	cookieOf := func(r *fasthttp.RequestCtx) string {
+		ck := fasthttp.AcquireCookie()
+		defer fasthttp.ReleaseCookie(ck)
+		ck.SetKey("session_id")
+		if r.Response.Header.Cookie(ck) {
+			return string(ck.Value())
+		}
+		return ""
+	}
+	start := time.Now()
+	r0 := vk.Do(app, "GET", "/set/v0")
+	cred := cookieOf(r0)
+	if herr != "" || !issued[cred] || seen["set"] != [2]string{cred, ""} {
+		return vk.Failf("creating a session: handler saw %v, cookie %q, error %q", seen["set"], cred, herr)
+	}
+	planned := time.Duration(c.Wait) * absUnit
+	if d := time.Until(start.Add(planned)); d > 0 {
+		time.Sleep(d)
+	}
+	if drift := time.Since(start) - planned; drift > 100*time.Millisecond {
+		return vk.Verdict{Skip: true}
+	}
+	expired := planned > absTimeout
+	lookups := 1
+	if c.Twice {
+		lookups = 2
+	}
+	for k := 0; k < lookups; k++ {
+		if c.Fault && k == 0 {
+			st.FailNextDelete()
+		}
+		sess, err := store.GetByID(cred)
+		ctx := fmt.Sprintf("Store.GetByID(%q) #%d, %v after the session was created (absolute timeout %v, storage record present, delete fault %v)", cred, k+1, planned, absTimeout, c.Fault && k == 0)
+		if expired {
+			if err == nil {
+				a, _ := sess.Get("a").(string)
+				return vk.Failf("%s: returned a session (id %q, a=%q) although the absolute timeout has passed", ctx, sess.ID(), a)
+			}
+		} else {
+			if err != nil {
+				return vk.Failf("%s: %v, want the live session", ctx, err)
+			}
+			if a, _ := sess.Get("a").(string); sess.ID() != cred || a != "v0" {
+				return vk.Failf("%s: session id %q with a=%q, want id %q with a=\"v0\"", ctx, sess.ID(), a, cred)
+			}
+			sess.Release()
+		}
+	}
+	if drift := time.Since(start) - planned; drift > 100*time.Millisecond {
+		return vk.Verdict{Skip: true}
+	}
+	// two clients at the same time
+	rOuter := vk.Do(app, "GET", "/outer")
+	outerCookie := cookieOf(rOuter)
+	ctx := fmt.Sprintf("two new clients served at the same time after the lookup (api=%s, wait %v, fault %v)", c.API, planned, c.Fault)
+	if herr != "" {
+		return vk.Failf("%s: %s", ctx, herr)
+	}
+	if seen["outer"][1] != "" || seen["inner"][1] != "" || !issued[seen["outer"][0]] || !issued[seen["inner"][0]] || seen["outer"][0] == seen["inner"][0] {
+		return vk.Failf("%s: the outer handler had session %v, the inner one %v; want two different fresh server-generated sessions without data", ctx, seen["outer"], seen["inner"])
+	}
+	if outerCookie != seen["outer"][0] || innerCookie != seen["inner"][0] {
+		return vk.Failf("%s: handlers had sessions %q and %q, the clients were given %q and %q", ctx, seen["outer"][0], seen["inner"][0], outerCookie, innerCookie)
+	}
+	for _, probe := range [][2]string{{outerCookie, "outer-data"}, {innerCookie, "inner-data"}} {
+		vk.Do(app, "GET", "/read", "Cookie", "session_id="+probe[0])
+		if herr != "" || seen["read"] != probe {
+			return vk.Failf("%s: the client holding %q now sees %v %s, want a=%q", ctx, probe[0], seen["read"], herr, probe[1])
+		}
+	}
+	if time.Since(start) < absTimeout-100*time.Millisecond && !expired {
+		vk.Do(app, "GET", "/read", "Cookie", "session_id="+cred)
+		if herr != "" || seen["read"] != [2]string{cred, "v0"} {
+			return vk.Failf("%s: the first client (live session %q) sees %v %s, want a=\"v0\"", ctx, cred, seen["read"], herr)
+		}
+	}
+	v := vk.Verdict{NonTrivial: expired, Classes: []string{"byid-api:" + c.API}}
+	if expired {
+		v.Classes = append(v.Classes, "lookup-after-absolute-deadline")
+		if c.Fault {
+			v.Classes = append(v.Classes, "lookup-after-absolute-deadline-with-delete-fault")
+		}
+	}
+	return v
+}
+
+var propByID = vk.Register(&vk.Prop[ByIDCase]{Property: property, Name: "byid", Check: checkByID, Quick: 10, Thorough: 40,
+	Gen: func(t *rapid.T) ByIDCase {
+		return ByIDCase{API: rapid.SampledFrom([]string{"middleware", "store"}).Draw(t, "api"), Wait: rapid.SampledFrom([]int{1, 2, 3, 3, 4}).Draw(t, "wait"),
+			Fault: rapid.Bool().Draw(t, "fault"), Twice: rapid.IntRange(0, 3).Draw(t, "twice") == 0}
+	}})
+
+func TestByID(t *testing.T) {
+	_ = flag.Set("rapid.shrinktime", "1ns")
+	defer func() { _ = flag.Set("rapid.shrinktime", "30s") }()
+	propByID.Run(t)
+}
